@@ -221,7 +221,7 @@ def build_script(rng, case, frames, topic):
             hold.append(it["cid"])
             release_later.append(it["cid"])
         # release some held handlers a few steps later
-        if release_later and rng.random() < 0.35 and pattern == "hold":
+        if release_later and rng.random() < 0.35 and pattern == "hold" and not case.get("forced"):
             script.append({"k": "release", "cid": release_later.pop(0)})
     if unsub_at is not None and unsub_at == len(case["items"]):
         script.append({"k": "flush"})
@@ -381,6 +381,7 @@ def run_program(ctx, prog, lab_id, ncases, stats, jcases, jmeta, thorough, stomp
                   ("stomp", 1, ("unsub_busy", 14)), ("stomp", 1, ("unsub_busy", 30)), ("stomp", 1, ("unsub_busy", 40)),
                   ("nats", 1, ("unsub_busy", 80)), ("nats", 2, ("unsub_busy", 12)), ("nats", 1, ("plain", 90)),
                   ("nats", 1, ("hold", 95)),      # backlog larger than the work queue behind a held handler: order must survive
+                  ("nats", 1, ("hold", 99)), ("nats", 1, ("hold", 88)),
                   ("stomp", 1, ("plain", 40))]
         for i in range(ncases):
             fn, sc, op = ops[i % len(ops)]
